@@ -231,6 +231,11 @@ impl VariableMap for TransformerContext {
     }
 
     fn get_rng(&self) -> &RefCell<Pcg32> {
+        #[cfg(feature = "verif-hooks")]
+        {
+            crate::verif::count_rng_draw();
+            crate::verif::sched_point("get_rng");
+        }
         &self.rng
     }
 }
@@ -369,6 +374,8 @@ impl TransformerContext {
     }
 
     pub fn set_var(&mut self, name: &str, value: &str) {
+        #[cfg(feature = "verif-hooks")]
+        crate::verif::sched_point("set_var");
         let scope = self.ensure_scope();
         scope.vars.insert(name.into(), value.into());
     }
@@ -405,6 +412,16 @@ impl TransformerContext {
         Ok(())
     }
 
+    #[cfg(feature = "verif-hooks")]
+    pub(crate) fn verif_state(&self) -> (usize, usize, u32, bool) {
+        (
+            self.scope_stack.len(),
+            self.element_stack.len(),
+            self.current_depth,
+            self.in_specs,
+        )
+    }
+
     pub fn get_top_element(&self) -> Option<SvgElement> {
         self.element_stack.last().cloned()
     }
@@ -414,6 +431,8 @@ impl TransformerContext {
     }
 
     pub fn update_element(&mut self, el: &SvgElement) {
+        #[cfg(feature = "verif-hooks")]
+        crate::verif::sched_point("update_element");
         if let Some(id) = el.get_attr("id") {
             let id = eval_attr(&id, self).unwrap_or(id);
             if self.elem_map.insert(id.clone(), el.clone()).is_none() {
